@@ -365,7 +365,9 @@ pub enum Policy {
     RoundRobin,
     /// C12: run the other threads for `after` steps (randomly), then run `reader` alone until it
     /// finishes; it must never be disabled while it runs alone
-    Solo { reader: usize, after: usize },
+    /// run everything at random for `start` steps, then suspend `reader` (possibly in the middle of
+    /// its operation) until step `after` or until nobody else can run, then run `reader` alone
+    Solo { reader: usize, start: usize, after: usize },
 }
 
 pub struct RunOutcome {
@@ -427,10 +429,12 @@ pub fn drive(s: &Arc<Sched>, policy: &Policy, rng: &mut crate::types::Rng, budge
             rr += 1;
             en[rr % en.len()]
         } else { match policy {
-            Policy::Solo { reader, after } => {
+            Policy::Solo { reader, start, after } => {
                 let others: Vec<usize> = en.iter().copied().filter(|t| t != reader).collect();
                 let reader_unfinished = unfinished.contains(reader);
-                if !solo_done && reader_unfinished && (steps >= *after || others.is_empty()) {
+                if steps < *start && !solo_done && solo_steps.is_none() {
+                    en[rng.below(en.len() as u64) as usize]
+                } else if !solo_done && reader_unfinished && (steps >= *after || others.is_empty()) {
                     // the reader runs alone from here
                     if en.contains(reader) {
                         solo_steps = Some(solo_steps.unwrap_or(0) + 1);
